@@ -1943,6 +1943,20 @@ impl<'a, E: quiver_core::effects::Effect> Compiler<'a, E> {
         // Pins (`&x`) refer to the variables in scope before this pattern binds anything.
         let pins = pattern::resolve_pins(&self.scopes, &binding_sets)?;
 
+        // The matched value may have been reached THROUGH a variable this very pattern rebinds
+        // (`b = "hi" =b b.0`: the value is a field of the old `b`). Its provenance names that
+        // variable; once the name stands for the new variable, narrowing "the matched value" by it
+        // (below) or giving the new variable that provenance would narrow the NEW variable as a
+        // part of itself. Such a value is untraceable from here on.
+        let value_provenance = if bindings
+            .iter()
+            .any(|(name, _)| provenance_rooted_at_variable(&value_provenance, name))
+        {
+            Provenance::Unknown
+        } else {
+            value_provenance
+        };
+
         // Register locals for all bindings (indices needed for Load)
         for (variable_name, variable_type) in &bindings {
             let local_index = self.local_count;
